@@ -265,6 +265,14 @@ def SF.all {α} (p : α → Bool) (x : SF α) : Bool := allVD p x.d x.bps
 theorem SF.all_at {α} (p : α → Bool) (x : SF α) (h : x.all p = true) (cp : Nat) : p (x.at cp) = true :=
   allVD_eval p x.d x.bps h cp
 
+/-- a pointwise Boolean relation between two step functions, checked on the merge, holds everywhere.
+(Stated generically so that uses of a kernel-checked fact never make the kernel unfold the tables.) -/
+theorem SF.all_zip_at {α β} (f : α → β → Bool) (x : SF α) (y : SF β)
+    (h : (SF.zip f x y).all id = true) (cp : Nat) : f (x.at cp) (y.at cp) = true := by
+  have := SF.all_at id _ h cp
+  rw [SF.zip_at] at this
+  exact this
+
 /-- the two step functions are equal everywhere -/
 def SF.same {α} [DecidableEq α] (x y : SF α) : Bool := (SF.zip (fun a b => decide (a = b)) x y).all id
 
